@@ -178,7 +178,7 @@ def lake_build(targets):
 def run_translators():
     """regenerate every Gen/*.lean from the current /repo (tie T2-src)."""
     out = ''
-    for tool in ('gen_dq.py', 'gen_src.py', 'gen_logic.py', 'gen_bundle.py', 'gen_conv.py'):
+    for tool in ('gen_dq.py', 'gen_src.py', 'gen_logic.py', 'gen_bundle.py', 'gen_conv.py', 'gen_fitspec.py'):
         if not os.path.exists(os.path.join(ROOT, 'tools', tool)):
             continue
         r = subprocess.run([sys.executable, os.path.join(ROOT, 'tools', tool), REPO], capture_output=True, text=True)
